@@ -2,7 +2,7 @@
    Proofs are in C03/Proofs.v; the models (Spec: sat, hits, dt_spec; ImplModel: in_test, matching,
    dt_impl = decision_table.rs after the three fix commits, dt_impl_orig = the pinned commit) in C03/Model.v. *)
 From Coq Require Import List ZArith NArith Bool Permutation Sorted.
-From DV Require Import C03.Model C03.Proofs.
+From DV Require Import C03.Model C03.Proofs C03.LinkC01.
 Import ListNotations.
 
 (* headline: for every well-shaped table and every well-typed input tuple the code's algorithm returns
@@ -124,6 +124,50 @@ Example C03_nonvacuous :
   dt_impl t_ex [ANum 5%Z; AStr 2] = OOne (RCtx [(0%N, AStr 5); (1%N, ANum 3)]).
 Proof. exact nonvacuous. Qed.
 
+(* LINK TO C01 (C03/LinkC01.v): the unary-test evaluation of this model IS the FEEL `in` operator of the evaluator model
+   coq/C01/Syntax.v (in_tests_eval = eval_in_list over Value::ExpressionList, written independently from the same
+   builders.rs), for EVERY entry (`-`, list of tests, not(...)) and EVERY input value (null and ill-kinded included),
+   three-valued: TT/TF/TN = true/false/null.  Numbers z |-> VNum (nenc z), strings s |-> VStr (senc s) for any order
+   embeddings (instances: of_Z z 0, one-code-point strings).  F = C01.Syntax; feel_in adds the two arms of build_in C01
+   does not model (Irrelevant => true, NegatedCommaList => negation of eval_in_list). *)
+Theorem C03_matching_is_feel_in : forall nenc senc, num_embedding nenc -> str_embedding senc -> forall x u,
+  feel_in (tr_atom nenc senc x) (tr_utest nenc senc u) = tv_val (in_test false false (in_neg_list_gen false) x u) /\
+  is_tt (in_test false false (in_neg_list_gen false) x u) = F.is_true (feel_in (tr_atom nenc senc x) (tr_utest nenc senc u)).
+Proof. intros nenc senc Hn Hs x u. split; [exact (in_test_is_feel_in nenc senc Hn Hs x u) | exact (entry_satisfied_is_feel_in nenc senc Hn Hs x u)]. Qed.
+
+(* an entry under allowed input values is And(In(x, values), In(x, entry)); a rule matches iff every such evaluator is true *)
+Theorem C03_rule_matches_is_feel_in : forall nenc senc, num_embedding nenc -> str_embedding senc ->
+  (forall x ic e, entry_true false false x ic e = F.is_true (feel_entry nenc senc x ic e)) /\
+  (forall t xs r, matches (eval_rule false false t xs r) = feel_rule nenc senc xs (t_inputs t) (r_in r)).
+Proof. intros nenc senc Hn Hs. split; [exact (entry_true_is_feel nenc senc Hn Hs) | exact (matches_is_feel nenc senc Hn Hs)]. Qed.
+
+(* the same through C01's evaluator of expressions (any enumeration of iteration tuples, any fuel >= 2, any scope
+   binding the input name): `x in (t1, …, tn)` is true exactly when the entry t1, …, tn is satisfied.  For ONE test C01's
+   EIn takes build_in's scalar arm, where a comparison / interval against null is null instead of false: satisfaction agrees,
+   the three-valued answer does not (C03_matching_is_feel_in_nonvacuous, last line but one). *)
+Theorem C03_feel_in_expression : forall nenc senc, num_embedding nenc -> str_embedding senc -> forall cartf f St n x l,
+  F.lookup n St = Some (tr_atom nenc senc x) ->
+  F.is_true (FS.eval cartf (S (S f)) St (F.EIn (F.EName n) (map (tr_item nenc senc) l))) = is_tt (in_list_gen false x l).
+Proof. exact eval_in_is_in_list. Qed.
+
+Example C03_matching_is_feel_in_nonvacuous :
+  num_embedding nenc0 /\ str_embedding senc0 /\
+  (feel_in (tr_atom nenc0 senc0 (ANum 7)) (tr_utest nenc0 senc0 (UPos [ILit (ANum 3); IRange (ANum 5) true (ANum 9) false])) = F.VBool true /\
+   feel_in (tr_atom nenc0 senc0 (ANum 9)) (tr_utest nenc0 senc0 (UPos [ILit (ANum 3); IRange (ANum 5) true (ANum 9) false])) = F.VBool false /\
+   feel_in (tr_atom nenc0 senc0 (ANum (-4))) (tr_utest nenc0 senc0 (UNeg [ICmp CGe (ANum (-3)); ILit (ANum 0)])) = F.VBool true /\
+   feel_in (tr_atom nenc0 senc0 (AStr 4)) (tr_utest nenc0 senc0 (UPos [ICmp CGt (AStr 4); ILit (AStr 4)])) = F.VBool true /\
+   feel_in (tr_atom nenc0 senc0 (AStr 4)) (tr_utest nenc0 senc0 (UPos [ILit ANull; ILit (AStr 4)])) = F.VNull /\
+   feel_in (tr_atom nenc0 senc0 ANull) (tr_utest nenc0 senc0 UAny) = F.VBool true /\
+   feel_in (tr_atom nenc0 senc0 ANull) (tr_utest nenc0 senc0 (UPos [ICmp CLt (ANum 5); ILit (ANum 1)])) = F.VBool false /\
+   feel_in (tr_atom nenc0 senc0 (ABool true)) (tr_utest nenc0 senc0 (UNeg [ILit (ABool false)])) = F.VBool true /\
+   F.is_true (FS.eval_spec 5 [[(1%N, F.VNum (Dec.of_Z 7 0))]]
+      (F.EIn (F.EName 1%N) (map (tr_item nenc0 senc0) [ILit (ANum 3); IRange (ANum 5) true (ANum 9) false]))) = true) /\
+  (F.in_eval (tr_atom nenc0 senc0 ANull) (tr_item_v nenc0 senc0 (ICmp CLt (ANum 5))) = F.VNull /\
+   feel_in (tr_atom nenc0 senc0 ANull) (tr_utest nenc0 senc0 (UPos [ICmp CLt (ANum 5)])) = F.VBool false /\
+   in_test false false (in_neg_list_gen false) ANull (UPos [ICmp CLt (ANum 5)]) = TF /\
+   feel_in (tr_atom nenc0 senc0 ANull) (tr_utest nenc0 senc0 (UNeg [ICmp CLt (ANum 5)])) = F.VBool true).
+Proof. exact (conj nenc0_embedding (conj senc0_embedding (conj link_nonvacuous single_test_null_differs))). Qed.
+
 Print Assumptions C03_policy_refines.
 Print Assumptions C03_entry_satisfied.
 Print Assumptions C03_matching_exact.
@@ -146,3 +190,7 @@ Print Assumptions C03_orig_dash_null_refuted.
 Print Assumptions C03_policy_refines_if_null_literal_handled.
 Print Assumptions C03_null_literal_known.
 Print Assumptions C03_nonvacuous.
+Print Assumptions C03_matching_is_feel_in.
+Print Assumptions C03_rule_matches_is_feel_in.
+Print Assumptions C03_feel_in_expression.
+Print Assumptions C03_matching_is_feel_in_nonvacuous.
